@@ -42,6 +42,7 @@ func (w *chain) epochOf(slot uint64) uint64 { return slot / w.spe }
 
 func readChain(bmock beaconmock.Mock, wantForks int) (*chain, error) {
 	w := &chain{}
+	_ = wantForks
 	ctx := context.Background()
 	spec, err := bmock.Spec(ctx, &eth2api.SpecOpts{})
 	if err != nil {
